@@ -3,7 +3,7 @@ EXTENDS KeyEncoding
 OutFileC == "key_states.json"
 NoOutC == ""
 OutSetsQ == { {}, {"o"}, {"o", "p"}, {"o,p"} }
-DepSetsQ == { {}, {"h1"}, {"h1", "h2"}, {"k", "w"}, {"file::o", "file::p"} }
+DepSetsQ == { {}, {"h1"}, {"k", "w"}, {"file::o", "file::p"} }   \* {"k","w"} is also the two-element set for order independence
 \* dependency hashes are opaque strings: two menus reuse the strings of a neighbouring list (fingerprint key/value, output
 \* definitions), so that an element sequence moving from one list into the next one across an empty list is in the universe
 DepSetsS == { {}, {"h1"}, {"k", "w"}, {"file::o", "file::p"} }
